@@ -111,6 +111,9 @@ func TestVerifReplay(t *veriftesting.T) {
 		}
 	}()
 	%(harness)s()
+	if verifFailures > 0 {
+		t.Fail()
+	}
 	veriffmt2.Println("VERIF-COMPLETED")
 }
 """
